@@ -63,4 +63,226 @@ theorem optLoopI_steps (p : Bytes) (fuel : Nat) (s : Sector) : (SectorI.optLoop 
       intro s1; exact ih _
     · simp
 
+/-- steps of a `lift`ed conditional -/
+theorem steps_lift_ite_bind {α β} (c : Prop) [Decidable c] (e : Err) (v : α) (f : α → Cnt β) :
+    (lift (if c then (.err e : Res α) else .ok v) >>= f).steps = if c then 0 else (f v).steps := by
+  split
+  · rw [steps_bind]; simp
+  · rw [steps_lift_bind_ok _ _ v rfl]
+
+theorem res_lift_ite_bind {α β} (c : Prop) [Decidable c] (e : Err) (v : α) (f : α → Cnt β) :
+    (lift (if c then (.err e : Res α) else .ok v) >>= f).res = if c then .err e else (f v).res := by
+  split <;> simp
+
+/-- cost of `parse_opt`: at most one step per four bytes of option data, plus two -/
+theorem parseOptI_cost {p : Bytes} {s : Sector} (h : s.offset ≤ p.length) :
+    (SectorI.parseOpt p s).steps ≤ (p.length - s.offset) / 4 + 2 ∧
+      ∀ s', (SectorI.parseOpt p s).res = .ok s' →
+        (SectorI.parseOpt p s).steps ≤ (s'.offset - s.offset) / 4 + 2 := by
+  have hsucc : ∀ s', (SectorI.parseOpt p s).res = .ok s' → s'.offset = s.offset + 10 + get16 p (s.offset + 8) := by
+    intro s' hs
+    rw [parseOptI_res] at hs
+    exact ((parseOpt_spec h).2 s' hs).1
+  have key : (SectorI.parseOpt p s).steps ≤ get16 p (s.offset + 8) / 4 + 2 ∧
+      ((SectorI.parseOpt p s).steps ≠ 0 → s.offset + 10 + get16 p (s.offset + 8) ≤ p.length) := by
+    unfold SectorI.parseOpt
+    simp only [u8Load_eq h, be16Load_eq h, incrementOffset_eq h, failIf]
+    consts
+    simp only [steps_lift_ite_bind]
+    split
+    · simp
+    split
+    · simp
+    split
+    · simp
+    split
+    · simp
+    split
+    · simp
+    split
+    · simp
+    rename_i hlt
+    have h10 : s.offset + 10 ≤ p.length := by omega
+    rw [ensureRemainingLen_eq (by simpa using h10)]
+    simp only [steps_lift_ite_bind]
+    split
+    · simp
+    · rename_i hfit
+      simp at hfit
+      exact ⟨optLoopI_steps _ _ _, fun _ => by omega⟩
+  constructor
+  · by_cases hz : (SectorI.parseOpt p s).steps = 0
+    · omega
+    · have := key.2 hz
+      have := key.1
+      omega
+  · intro s' hs
+    have := hsucc s' hs
+    have := key.1
+    omega
+
+/-- the tail shared by the name-bearing record types costs nothing: `sub`, `failIf`, `incrementOffset`, `pure` -/
+theorem steps_tail {p : Bytes} (s : Sector) (fin l : Nat) :
+    (do let d ← lift (sub fin s.offset); lift (failIf (d != l) .invalidPacket)
+        let (s, _) ← lift (incrementOffset p s l); pure s : Cnt Sector).steps ≤ 0 := by
+  apply steps_lift_bind_le; intro _
+  apply steps_lift_bind_le; intro _
+  apply steps_lift_bind_le; intro x
+  cases x; simp
+
+theorem steps_inc_pure {p : Bytes} (s : Sector) (n : Nat) :
+    (do let (s, _) ← lift (incrementOffset p s n); pure s : Cnt Sector).steps ≤ 0 := by
+  apply steps_lift_bind_le; intro x
+  cases x; simp
+
+/-- cost of the type-specific part of `parse_rr` -/
+theorem rrBodyI_cost {p : Bytes} {s : Sector} (sec : Section) (rrStart t l : Nat) (h : s.offset ≤ p.length) :
+    (SectorI.rrBody p s sec rrStart t l).steps ≤ 2 * W + (p.length - s.offset) / 4 + 2 ∧
+      ∀ s', (SectorI.rrBody p s sec rrStart t l).res = .ok s' →
+        (SectorI.rrBody p s sec rrStart t l).steps ≤ 2 * W + (s'.offset - s.offset) / 4 + 2 := by
+  unfold SectorI.rrBody
+  split
+  · -- OPT: everything before `parse_opt` is free
+    have hc := parseOptI_cost (p := p) (s := s) h
+    constructor
+    · apply Nat.le_trans _ (by omega : (p.length - s.offset) / 4 + 2 ≤ 2 * W + (p.length - s.offset) / 4 + 2)
+      apply steps_lift_bind_le; intro _
+      apply steps_lift_bind_le; intro _
+      apply steps_lift_bind_le; intro _
+      exact hc.1
+    · intro s' hs
+      obtain ⟨_, _, h2, e2⟩ := bind_ok_decomp hs
+      obtain ⟨_, _, h3, e3⟩ := bind_ok_decomp h2
+      obtain ⟨_, _, h4, e4⟩ := bind_ok_decomp h3
+      have := hc.2 s' h4
+      rw [e2, e3, e4]
+      simp only [steps_lift]
+      omega
+  · have hW : ∀ (x : Cnt Sector), x.steps ≤ 2 * W →
+        x.steps ≤ 2 * W + (p.length - s.offset) / 4 + 2 ∧
+          ∀ s', x.res = .ok s' → x.steps ≤ 2 * W + (s'.offset - s.offset) / 4 + 2 :=
+      fun x hx => ⟨by omega, fun _ _ => by omega⟩
+    split
+    · apply hW
+      apply steps_lift_bind_le; intro _
+      apply steps_lift_bind_le; intro x; cases x
+      refine Nat.le_trans (steps_bind_le' _ _ W 0 (checkCompressedNameI_steps _ _) ?_) (by omega)
+      intro fin; exact steps_tail _ _ _
+    split
+    · apply hW
+      apply steps_lift_bind_le; intro _
+      apply steps_lift_bind_le; intro x; cases x
+      refine Nat.le_trans (steps_bind_le' _ _ W 0 (checkCompressedNameI_steps _ _) ?_) (by omega)
+      intro fin; exact steps_tail _ _ _
+    split
+    · apply hW
+      apply steps_lift_bind_le; intro _
+      apply steps_lift_bind_le; intro x; cases x
+      refine Nat.le_trans (steps_bind_le' _ _ W W (checkCompressedNameI_steps _ _) ?_) (by omega)
+      intro fin1
+      refine Nat.le_trans (steps_bind_le' _ _ W 0 (checkCompressedNameI_steps _ _) ?_) (by omega)
+      intro fin2
+      apply steps_lift_bind_le; intro _
+      apply steps_lift_bind_le; intro _
+      apply steps_lift_bind_le; intro _
+      exact steps_inc_pure _ _
+    split
+    · apply hW
+      apply steps_lift_bind_le; intro _
+      apply steps_lift_bind_le; intro x; cases x
+      refine Nat.le_trans (steps_bind_le' _ _ W 0 (checkUncompressedNameI_steps _ _) ?_) (by omega)
+      intro fin; exact steps_tail _ _ _
+    split
+    · apply hW
+      apply steps_lift_bind_le; intro _
+      exact Nat.le_trans (steps_inc_pure _ _) (by omega)
+    split
+    · apply hW
+      apply steps_lift_bind_le; intro _
+      exact Nat.le_trans (steps_inc_pure _ _) (by omega)
+    · apply hW
+      exact Nat.le_trans (steps_inc_pure _ _) (by omega)
+
+/-- cost of one `parse_rr`: 1 + at most three name walks + the option walk -/
+theorem parseRRI_cost {p : Bytes} {s : Sector} (sec : Section) (h : s.offset ≤ p.length) :
+    (SectorI.parseRR p s sec).steps ≤ 1 + 3 * W + (p.length - s.offset) / 4 + 2 ∧
+      ∀ s', (SectorI.parseRR p s sec).res = .ok s' →
+        s.offset + 11 ≤ s'.offset ∧ s'.offset ≤ p.length ∧
+          (SectorI.parseRR p s sec).steps ≤ 1 + 3 * W + (s'.offset - s.offset) / 4 + 2 := by
+  have hs1 : ∀ s1, (SectorI.skipName p s).res = .ok s1 → s.offset ≤ s1.offset ∧ s1.offset ≤ p.length := by
+    intro s1 hs
+    rw [skipNameI_res] at hs
+    obtain ⟨off, hcc, e, hoff⟩ := skipName_ok hs
+    have := checkCompressedName_ok_gt hcc
+    subst e; simp; omega
+  constructor
+  · unfold SectorI.parseRR
+    refine Nat.le_trans (steps_bind_le' _ _ 1 (3 * W + (p.length - s.offset) / 4 + 2) (by simp) ?_) (by omega)
+    intro _
+    refine Nat.le_trans (steps_bind_le _ _ W (2 * W + (p.length - s.offset) / 4 + 2) (skipNameI_steps p s) ?_) (by omega)
+    intro s1 hsk
+    obtain ⟨g1, g2⟩ := hs1 s1 hsk
+    apply steps_lift_bind_le; intro t
+    apply steps_lift_bind_le; intro l
+    have := (rrBodyI_cost (p := p) (s := s1) sec s.offset t l g2).1
+    have hmono : (p.length - s1.offset) / 4 ≤ (p.length - s.offset) / 4 := Nat.div_le_div_right (by omega)
+    omega
+  · intro s' hs
+    have hpost := (parseRR_spec (p := p) (s := s) sec h).2 s' (by rw [← parseRRI_res]; exact hs)
+    refine ⟨hpost.1, hpost.2, ?_⟩
+    unfold SectorI.parseRR at hs ⊢
+    obtain ⟨_, _, h1, e1⟩ := bind_ok_decomp hs
+    obtain ⟨s1, hsk, h2, e2⟩ := bind_ok_decomp h1
+    obtain ⟨t, _, h3, e3⟩ := bind_ok_decomp h2
+    obtain ⟨l, _, h4, e4⟩ := bind_ok_decomp h3
+    obtain ⟨g1, g2⟩ := hs1 s1 hsk
+    have hb := (rrBodyI_cost (p := p) (s := s1) sec s.offset t l g2).2 s' h4
+    have hsn := skipNameI_steps p s
+    rw [e1, e2, e3, e4]
+    simp only [steps_tick, steps_lift]
+    have hmono : (s'.offset - s1.offset) / 4 ≤ (s'.offset - s.offset) / 4 := Nat.div_le_div_right (by omega)
+    omega
+
+/-- slope and per-failure constant of the record loop -/
+def K : Nat := 76
+def C : Nat := 1 + 3 * W + 2
+
+theorem parseRRsI_cost {p : Bytes} (sec : Section) (n : Nat) {s : Sector} (h : s.offset ≤ p.length) :
+    (SectorI.parseRRs p sec n s).steps ≤ K * (p.length - s.offset) + C ∧
+      ∀ s', (SectorI.parseRRs p sec n s).res = .ok s' →
+        s.offset ≤ s'.offset ∧ s'.offset ≤ p.length ∧
+          (SectorI.parseRRs p sec n s).steps ≤ K * (s'.offset - s.offset) := by
+  induction n generalizing s with
+  | zero =>
+    simp only [SectorI.parseRRs, steps_pure, res_pure]
+    refine ⟨by omega, ?_⟩
+    intro s' hs
+    simp at hs; subst hs
+    exact ⟨Nat.le_refl _, h, by omega⟩
+  | succ k ih =>
+    have hc := parseRRI_cost (p := p) (s := s) sec h
+    unfold SectorI.parseRRs
+    constructor
+    · rw [steps_bind]
+      cases hr : (SectorI.parseRR p s sec).res with
+      | ok s1 =>
+        obtain ⟨b1, b2, b3⟩ := hc.2 s1 hr
+        have := (ih (s := s1) b2).1
+        simp only
+        unfold K C at *
+        have hW : W = 273 := rfl
+        omega
+      | err e => simp only; have := hc.1; unfold K C; have hW : W = 273 := rfl; omega
+      | panic => simp only; have := hc.1; unfold K C; have hW : W = 273 := rfl; omega
+      | diverge => simp only; have := hc.1; unfold K C; have hW : W = 273 := rfl; omega
+    · intro s' hs
+      obtain ⟨s1, hr, h2, e⟩ := bind_ok_decomp hs
+      obtain ⟨b1, b2, b3⟩ := hc.2 s1 hr
+      obtain ⟨c1, c2, c3⟩ := (ih (s := s1) b2).2 s' h2
+      refine ⟨by omega, c2, ?_⟩
+      rw [e]
+      unfold K at *
+      have hW : W = 273 := rfl
+      omega
+
 end Dns
